@@ -657,6 +657,10 @@ def r4(ctx):
                 elif isinstance(e, ast.Call) and attr_tail(e) == "combine" and len(e.args) == 1:
                     cover(e.func.value)
                     cover(e.args[0])
+                elif any(s.call is e for s in my_sites):
+                    # a row-aligned rebuild written in place, without a name of its own
+                    _, descr_ = site_alignment(ctx, [s for s in my_sites if s.call is e][0])
+                    covered.update(d_[0] for d_ in descr_ if d_[0] in parts)
                 else:
                     problems.append(f"unrecognised return operand `{U(e)[:60]}`")
             cover(r.value)
